@@ -39,18 +39,19 @@ type OutSpec struct {
 	Stream  bool
 }
 type Node struct {
-	Name   string
-	Kind   int
-	Files  []string
-	Vals   []string
-	Ins    []InSpec
-	Params []ParamSpec
-	Outs   []OutSpec
-	Cores  int
-	Custom int
-	Extras []string
-	PadTo  int
-	TagKey string
+	Name    string
+	Kind    int
+	Files   []string
+	Vals    []string
+	Ins     []InSpec
+	Params  []ParamSpec
+	Outs    []OutSpec
+	Cores   int
+	Custom  int
+	Extras  []string
+	PadTo   int
+	TagKey  string
+	TagArgs []string
 }
 type WF struct {
 	Name     string
@@ -98,6 +99,9 @@ func commandPattern(n *Node) string {
 		} else {
 			fmt.Fprintf(&b, " -o {o:%s}", o.Name)
 		}
+	}
+	for _, k := range n.TagArgs {
+		fmt.Fprintf(&b, " -p tg_%s={t:%s}", strings.ReplaceAll(k, ".", "_"), k)
 	}
 	for _, x := range n.Extras {
 		fmt.Fprintf(&b, " -x %s", x)
